@@ -511,7 +511,9 @@ class PWLCalibration(keras.layers.Layer):
   def get_config(self):
     """Standard Keras config for serialization."""
     config = {
-        "input_keypoints": self.input_keypoints,
+        # Keypoints are commonly numpy arrays; lists survive every format.
+        "input_keypoints": (self.input_keypoints.tolist() if isinstance(
+            self.input_keypoints, np.ndarray) else self.input_keypoints),
         "units": self.units,
         "output_min": self.output_min,
         "output_max": self.output_max,
@@ -682,7 +684,8 @@ class UniformOutputInitializer(keras.initializers.Initializer):
         "output_min": self.output_min,
         "output_max": self.output_max,
         "monotonicity": self.monotonicity,
-        "keypoints": self.keypoints,
+        "keypoints": (self.keypoints.tolist() if isinstance(
+            self.keypoints, np.ndarray) else self.keypoints),
     }  # pyformat: disable
 
 
